@@ -142,6 +142,18 @@ func (fr *Frame) call(st *State, cc *ssa.CallCommon, pos token.Pos) (*Val, *Stat
 		args = append(args, fr.val(st, a))
 	}
 	name := callName(cc)
+	// caller-side assertions attached to this callee
+	if fr.Top && fr.Con != nil && c.noObligations == 0 {
+		for i, ac := range fr.Con.AtCalls {
+			if strings.HasSuffix(name, "."+ac.Callee) || strings.HasSuffix(name, ")."+ac.Callee) || name == ac.Callee {
+				fr.midEval = true
+				g := fr.evalBool(ac.Clause.Expr, st, fr.Entry, nil)
+				fr.midEval = false
+				c.oblige(fr, "at-call", ac.Callee+"."+clauseName("", ac.Clause, i)+"@"+c.posKey(pos), st, g, "at every call to "+ac.Callee+": "+ac.Clause.Src, pos)
+				fr.atCallHit[i] = true
+			}
+		}
+	}
 	// library models
 	if m, ok := libModels[name]; ok {
 		c.AssumedLib[name] = true
@@ -997,6 +1009,40 @@ func (c *Ctx) modPrefixes(con *Contract, callee *ssa.Function, cc *ssa.CallCommo
 			return []string{"S:" + tstr(sl.Elem())}, true
 		}
 		return nil, false
+	}
+	// x.f.g.* : everything of the object the selector chain points to
+	if strings.HasSuffix(m, ".*") && len(sels) > 0 {
+		cur := t
+		for _, sname := range sels {
+			if p, ok := under(cur).(*types.Pointer); ok {
+				cur = p.Elem()
+			}
+			stt, ok := under(cur).(*types.Struct)
+			if !ok {
+				return nil, false
+			}
+			found := false
+			for i := 0; i < stt.NumFields(); i++ {
+				if stt.Field(i).Name() == sname {
+					cur = stt.Field(i).Type()
+					found = true
+				}
+			}
+			if !found {
+				return nil, false
+			}
+		}
+		var out []string
+		if p, ok := under(cur).(*types.Pointer); ok {
+			out = append(out, rootKey(p.Elem()))
+			if isBigIntPtr(cur) {
+				out = append(out, "bigval")
+			}
+		}
+		for _, mf := range c.modelFieldsOf(cur) {
+			out = append(out, modelKey(mf))
+		}
+		return out, len(out) > 0
 	}
 	// follow selectors through pointer-to-struct types
 	path := ""
